@@ -22,6 +22,11 @@ ASSUMPTIONS = [
     "into / class constructors accept the payloads of their own declared keys",
     "whole-object checks are total and return None or an error value",
 ]
+from ..facts import effects as _effects  # noqa: E402
+_FX = _effects.obligation("C04")
+EXTRA_PROOF_FILES = [_FX[0]]
+TRUSTED_EXTRA = [_FX[1]]
+regenerate_facts = _FX[2]
 
 INT = ("Scalar", ("KInt",), None, [], [], [])
 STRIP = ("Scalar", ("KStr",), None, [("Strip",)], [("PNotBlank",)], [])
@@ -316,3 +321,7 @@ def replay(path: str) -> int:
         print("property violated on these overlapping validations: " + r["what"] if r else "property holds on these overlapping validations")
         return 1 if r else 0
     return generic_replay(path, oracle)
+
+
+from ..facts import attach as _attach, typechecks as _typechecks  # noqa: E402
+_attach(globals(), _typechecks.obligation("C04"))
